@@ -3,7 +3,11 @@ import NoteSeqVerif.Generated.C17
 
 Transcribes, as the code is now, `events_lib.SimpleEventSequence` (and through a class record
 `Cls` its subclasses `Melody`, `DrumTrack`, `ChordProgression`), `lead_sheets_lib.LeadSheet`,
-`pianoroll_lib.PianorollSequence` and `performance_lib.BasePerformance`.
+`pianoroll_lib.PianorollSequence`, `performance_lib.BasePerformance` (the code `Performance` and
+`MetricPerformance` share; the two differ only in their constructor and resolution attribute) and
+`performance_lib.NotePerformance`.  This file describes what ONE call does to its receiver;
+histories over several objects (deepcopy / slices return new objects, lead sheets hold references
+to melody and chord objects) are in `Model/C17Heap.lean`.
 
 Conventions
 * A Python exception is an `Except Err` value.  In the SimpleEventSequence family and in LeadSheet
